@@ -53,6 +53,10 @@ type vstream struct {
 	err    error
 	done   bool
 	resume *bool
+	// teardown releases a stalled Send at the end of the run; frozen / wasDone are the stream's state before that
+	teardown *bool
+	frozen   []uint64
+	wasDone  bool
 }
 
 var errConsumer = errors.New("consumer went away")
@@ -65,7 +69,11 @@ func (s *vstream) Send(b *proto.BeaconPacket) error {
 		switch s.kind {
 		case "stall":
 			vrt.Logf("consumer %s stalls in Send(round %d)", s.kind, b.Round)
-			vrt.BlockUntil(func() bool { return false })
+			// never returns while the scenario runs; released at teardown only (a stalled Send inside the catch-up scan
+			// holds a bolt read transaction, which a database Close would wait for)
+			t := s.teardown
+			vrt.BlockUntil(func() bool { return t != nil && *t })
+			return errConsumer
 		case "slow":
 			vrt.Logf("consumer slow in Send(round %d)", b.Round)
 			r := s.resume
@@ -89,10 +97,11 @@ func runOne(c cfg, devs []vrt.Dev, labels bool) *explore.Exec {
 	var bads []*vstream
 	var setupErr error
 	appended := 0
+	teardown := false
 	appenderDone := false
 	readerDone := !c.Reader
 	var H uint64
-	s := vrt.Run(vrt.Options{Devs: devs, MaxSteps: 50000, Labels: labels, Watchdog: 10 * time.Second}, func() {
+	s := vrt.Run(vrt.Options{Devs: devs, MaxSteps: 50000, Labels: labels, Watchdog: 60 * time.Second}, func() {
 		ctx := context.Background()
 		base, cleanup, err := fix.NewBackendSize(ctx, c.Backend, c.Chained, 64)
 		if err != nil {
@@ -130,7 +139,7 @@ func runOne(c cfg, devs []vrt.Dev, labels bool) *explore.Exec {
 			})
 		}
 		for i, b := range c.Bad {
-			st := &vstream{resume: &appenderDone}
+			st := &vstream{resume: &appenderDone, teardown: &teardown}
 			fmt.Sscanf(strings.Replace(b, "@", " ", 1), "%s %d", &st.kind, &st.at)
 			bads = append(bads, st)
 			start(i, st, c.BadFrom)
@@ -168,6 +177,13 @@ func runOne(c cfg, devs []vrt.Dev, labels bool) *explore.Exec {
 		if b, err := base.Last(ctx); err == nil {
 			H = b.Round
 		}
+		// teardown: what the oracle looks at is recorded above; now let the stalled consumers go
+		for _, st := range bads {
+			st.frozen = append([]uint64{}, st.got...)
+			st.wasDone = st.done
+		}
+		teardown = true
+		vrt.WaitIdle()
 	})
 	x := &explore.Exec{S: s}
 	if s.NativeBlock != "" || s.ReplayDivergence != "" {
@@ -190,7 +206,7 @@ func runOne(c cfg, devs []vrt.Dev, labels bool) *explore.Exec {
 	}
 	var bo []string
 	for _, b := range bads {
-		bo = append(bo, fmt.Sprintf("%s:%v/done=%v", b.kind, b.got, b.done))
+		bo = append(bo, fmt.Sprintf("%s:%v/done=%v", b.kind, b.frozen, b.wasDone))
 	}
 	x.Outcome = fmt.Sprintf("appended=%d/%d healthy=%v reader=%v bad=%v", appended, c.Appends, healthy.got, readerDone, bo)
 	if !appenderDone {
